@@ -663,8 +663,13 @@ def mon_C09(walk, d):
                 tag = tag_of(p)
                 if tag is None:
                     continue
+                # a completion reported by the very service call that sends this packet precedes the send exactly when it
+                # comes from the timeout pass that opens the call; the pass that closes it can only reach an operation
+                # that was being written when the call began, and such an operation has bytes on the wire in this call
                 for tg in list(inflight):
-                    if tg in completed_at and completed_at[tg] < p["first_step"]:
+                    if tg in completed_at and (completed_at[tg] < p["first_step"] or
+                                               (completed_at[tg] == p["first_step"] and
+                                                not any(q is not p and tag_of(q) == tg and q["last_step"] >= p["first_step"] for q in c.packets))):
                         del inflight[tg]
                 inflight[tag] = p["first_step"]
                 if len(inflight) > rm:
@@ -1123,7 +1128,8 @@ def snap_state(line):
     return dict(state=f["state"], ops=ops, opids=lst("ops"), userq=lst("userq"), resubq=lst("resubq"), highq=lst("highq"),
                 cur=None if f.get("cur") in (None, "none") else int(f["cur"]), alloc=mp("alloc"), ppub=mp("ppub"), pnon=mp("pnon"),
                 pwc=lst("pwcops"), timeouts=f.get("timeouts", ""), nextop=int(f.get("nextop", "0")), nextpid=int(f.get("nextpid", "1")),
-                rm=int(f["s.rm"]) if "s.rm" in f else None, slow=int(f.get("slow", "0")), pending_write=f.get("pwc", "1") == "1")
+                rm=int(f["s.rm"]) if "s.rm" in f else None, slow=int(f.get("slow", "0")), pending_write=f.get("pwc", "1") == "1",
+                ska=int(f["s.ska"]) if "s.ska" in f else None, nping=f.get("nping"))
 
 
 def needs_id(kind):
@@ -1189,6 +1195,9 @@ def snapshot_violations(s):
     # must be one to come (the signature of a packet left 'being written' after its last byte)
     if s["pwc"] and not s.get("pending_write", True):
         out.append(("PWC.unflushed-needs-pending-write", f"operations {s['pwc']} wait for a write completion although no write is pending"))
+    # the keep-alive clock never stops (Proofs/EngineWrite.lean, KA)
+    if s["state"] == "Connected" and s.get("ska") and s.get("nping") in (None, "none"):
+        out.append(("KA.next-ping-scheduled", f"Connected with a negotiated keep alive of {s['ska']} s and no next ping scheduled"))
     if s["state"] == "Disconnected":
         if s["cur"] is not None or s["highq"] or s["ppub"] or s["pnon"] or s["pwc"] or s["timeouts"]:
             out.append(("D1.disconnected-clean", "Disconnected with a current operation, high-priority work, pending tables or timeouts left"))
